@@ -95,9 +95,9 @@ class Ref:
             raise L.Skip("ill-conditioned")
         return v
 
-    def g(self, pt, state):
+    def g(self, pt, state, evl=None):
         """d(rate expression of `state`)/d(state), every other name (incl. intermediates) held fixed"""
-        evl = self.evaluator(pt)
+        evl = evl or self.evaluator(pt)
         env = {"t": pt["t"], "time": pt["t"]}
         for n in self.states + self.params + list(self.missing):
             env[n] = pt[n]
@@ -109,15 +109,15 @@ class Ref:
         d = L.Dual(env, {}, {state: 1.0}, through=False)
         return d.ev(self.defs[f"d{state}_dt"])
 
-    def expected(self, fname, pt, state, delta=1e-8, stiff=None):
+    def expected(self, fname, pt, state, delta=1e-8, stiff=None, evl=None):
         """-> (value, tolerance) of scheme `fname` for `state` at pt (pt has dt)"""
-        evl = self.evaluator(pt)
+        evl = evl or self.evaluator(pt)
         f = self.value(evl, f"d{state}_dt")
         x, dt = pt[state], pt["dt"]
         if fname == "explicit_euler" or (fname == "hybrid_rush_larsen" and state not in (stiff or ())):
             v = x + dt * f[0]
             return v, max(L.tol(f) * abs(dt) * 2, 1e-12 * max(abs(x), abs(dt * f[0]), abs(dt) * f[2]))
-        fv, g = self.g(pt, state)
+        fv, g = self.g(pt, state, evl)
         gv = g
         scale = max(abs(x), abs(dt * f[0]), abs(dt) * f[2], 1e-300)
         if abs(abs(gv) - delta) <= 1e-9 * max(delta, abs(gv)):
@@ -316,6 +316,7 @@ def check_module(ref, mod, res, ID, functions, opts, tag, fail, pts=None, dts=(0
         p = [0.0] * npar
         for n, i in pidx.items():
             p[i] = pt[n]
+        evl = ref.evaluator(pt)
         for fname in functions:
             if fname in ("rhs", "monitor_values"):
                 try:
@@ -331,7 +332,6 @@ def check_module(ref, mod, res, ID, functions, opts, tag, fail, pts=None, dts=(0
                     continue
                 if mutated:
                     bad.setdefault((fname, "mutates-input"), (pt, "input arrays changed"))
-                evl = ref.evaluator(pt)
                 for n in names:
                     slot = sidx[names[n]] if fname == "rhs" else midx[n]
                     try:
@@ -360,7 +360,7 @@ def check_module(ref, mod, res, ID, functions, opts, tag, fail, pts=None, dts=(0
                         bad.setdefault((fname, "mutates-input"), (q, "input arrays changed"))
                     for st in ref.states:
                         try:
-                            v, tl = ref.expected(fname, q, st, delta=delta, stiff=stiff)
+                            v, tl = ref.expected(fname, q, st, delta=delta, stiff=stiff, evl=evl)
                         except L.Skip as sk:
                             res["skipped"][sk.reason] = res["skipped"].get(sk.reason, 0) + 1
                             continue
@@ -521,6 +521,10 @@ def e3_specs(tier, variants=True):
     if variants:
         small = [(si, sh) for si, sh in enumerate(shapes)
                  if all(len(d) <= 1 for d in sh[0]) and len(sh[1]) <= 1 and len(sh[2]) <= 1 and len(sh[0]) <= (2 if tier == "quick" else 3)]
+        if tier == "quick":
+            # quick: zero/one-intermediate shapes, and two-intermediate *chains* (i2 defined from i1) read through x, p or i2
+            small = [(si, sh) for si, sh in small
+                     if len(sh[0]) <= 1 or (sh[0][1] == ("i1",) and set(sh[1]) <= {"x", "p", "i2"} and set(sh[2]) <= {"x", "p", "i2"})]
         pv = L.bin_("+", L.bin_("*", L.num("2"), L.num("3")), L.call("exp", L.num("0")))
         for si, sh in small:
             for nmg in range(len(NAMINGS)):
